@@ -615,10 +615,45 @@ def layout(stratum):
     return _LAYOUTS[stratum]
 
 
+N_SAMPLINGS = [1.0, 2.0, 0.5, 0.1, 3.0, 100.0, 1000.0, 1024.0, 8000.0, 44100.0, 48000.0]
+N_MAX = {"N": 512, "Nfull": 4096}
+
+
 def stratum_size(stratum):
     if stratum in ("A", "Afull"):
         return len(layout(stratum)) * len(SEQS)
+    if stratum in N_MAX:
+        return N_MAX[stratum] * len(N_SAMPLINGS) * 2
     return None
+
+
+def run_numeric(seed, stratum, index):
+    """Stratum N: every NFFT up to a bound x a list of sampling rates x data type, one fixed walk through
+    all representations.  Axis arithmetic in floating point (k*df against sampling/2 and the like) goes
+    wrong only for particular (NFFT, sampling) pairs, which random sizes rarely hit."""
+    cplx = index % 2
+    i = index // 2
+    fs = N_SAMPLINGS[i % len(N_SAMPLINGS)]
+    M = i // len(N_SAMPLINGS) + 1
+    rng = random.Random(seed)
+    n = M if cplx else refmodel.n_onesided(M)
+    cfg = {"kind": "base", "cplx": bool(cplx), "M": M, "N": max(2, M), "sampling": fs,
+           "vec": enc_array(gen_vector(rng, n, "distinct")), "vkind": "distinct"}
+    run = Run(cfg)
+    if run.init_error is not None:
+        return run
+    walk = ["centerdc", "twosided", "centerdc"] if cplx else ["centerdc", "onesided", "twosided", "onesided"]
+    if run.step({"op": "read"}):
+        return run
+    for s in walk:
+        if run.step({"op": "sides", "value": s}):
+            return run
+        for t in SIDES:
+            if cplx and t == "onesided":
+                continue
+            if t != s and run.step({"op": "conv", "sides": t}):
+                return run
+    return run
 
 
 def run_systematic(seed, stratum, index):
@@ -747,6 +782,8 @@ def run_index(stratum, index, base_seed, ctx):
     seed = derive_seed(base_seed, PROPERTY, stratum, index)
     if stratum in ("A", "Afull"):
         run = run_systematic(seed, stratum, index)
+    elif stratum in N_MAX:
+        run = run_numeric(seed, stratum, index)
     else:
         run = run_random(seed)
     if run is not None:
@@ -854,6 +891,6 @@ ASSUMPTIONS = [
 ]
 
 PLANS = {
-    "quick": {"strata": [("A", 10**9), ("B", 60000)], "opts": {"selftest_n": 60}, "wall_cap_s": 900},
-    "thorough": {"strata": [("Afull", 10**9), ("B", 3000000)], "opts": {"selftest_n": 150}, "wall_cap_s": 6 * 3600},
+    "quick": {"strata": [("A", 10**9), ("N", 10**9), ("B", 60000)], "opts": {"selftest_n": 60}, "wall_cap_s": 900},
+    "thorough": {"strata": [("Afull", 10**9), ("Nfull", 10**9), ("B", 3000000)], "opts": {"selftest_n": 150}, "wall_cap_s": 6 * 3600},
 }
